@@ -1218,9 +1218,10 @@ fn run_case() {
                         st.active.iter().map(|(c, n, m)| format!("{}:{}:{}", c, n, m)).collect();
                     a.sort();
                     format!(
-                        "stats a={} rx={}",
+                        "stats a={} rx={}{}",
                         if a.is_empty() { "-".to_string() } else { a.join(",") },
-                        st.receivers
+                        st.receivers,
+                        if st.parked_cancels == 0 { String::new() } else { format!(" pc={}", st.parked_cancels) }
                     )
                 }
             }
